@@ -284,16 +284,16 @@ func (r *Run) Finish() int {
 	}
 	wall := time.Since(r.Start).Seconds()
 	cov := map[string]any{
-		"evaluations":                   r.Agg.Evals,
-		"distinct_nontrivial":           len(r.distinct),
-		"rule":                          r.Rule,
-		"samples":                       r.Agg.Samples,
-		"exhaustive":                    r.Exhaustive && !r.Agg.Capped,
-		"bounds":                        r.Bounds,
-		"outcome_classes":               r.Agg.Classes,
-		"dont_care":                     r.Agg.DontCare,
-		"notes":                         r.Agg.Notes,
-		"known_findings_hit":            len(knownHit),
+		"evaluations":         r.Agg.Evals,
+		"distinct_nontrivial": len(r.distinct),
+		"rule":                r.Rule,
+		"samples":             r.Agg.Samples,
+		"exhaustive":          r.Exhaustive && !r.Agg.Capped,
+		"bounds":              r.Bounds,
+		"outcome_classes":     r.Agg.Classes,
+		"dont_care":           r.Agg.DontCare,
+		"notes":               r.Agg.Notes,
+		"known_findings_hit":  len(knownHit),
 	}
 	if r.Agg.States > 0 {
 		cov["states"] = r.Agg.States
@@ -323,8 +323,12 @@ func (r *Run) Finish() int {
 		fmt.Fprintln(os.Stderr, err)
 		return 2
 	}
-	fmt.Printf("%s tier=%s evals=%d states=%d trans=%d distinct=%d dontcare=%d exhaustive=%v classes=%v violations=%d known=%d wall=%.1fs\n",
-		r.Prop, r.Tier, r.Agg.Evals, r.Agg.States, r.Agg.Trans, len(r.distinct), r.Agg.DontCare, r.Exhaustive && !r.Agg.Capped, r.Agg.Classes, len(real), len(knownHit), wall)
+	var cls any = r.Agg.Classes
+	if len(r.Agg.Classes) > 14 {
+		cls = fmt.Sprintf("(%d classes, see evidence)", len(r.Agg.Classes))
+	}
+	fmt.Printf("%s tier=%s evals=%d states=%d trans=%d distinct=%d dontcare=%d exhaustive=%v classes=%v notes=%v violations=%d known=%d wall=%.1fs\n",
+		r.Prop, r.Tier, r.Agg.Evals, r.Agg.States, r.Agg.Trans, len(r.distinct), r.Agg.DontCare, r.Exhaustive && !r.Agg.Capped, cls, r.Agg.Notes, len(real), len(knownHit), wall)
 	return exit
 }
 
